@@ -8,6 +8,7 @@ import vlib
 import gen_store
 import gen_mc
 import gen_sim
+import gen_handoff
 import simmon
 import subprocess
 import re
@@ -837,6 +838,193 @@ def suite_clock(ctx, can_run_model):
                                                  len(red_set(a[0])), len(red_set(b[0]))),
                                              "scenario": vlib.scenario_text(sc), "impl": impl[sc[1]][:6], "seed": ctx.seed,
                                              "suite": "MCCLOCK", "feat": feat})
+
+
+# ---------------------------------------------------------------------------------------------------
+# HANDOFF suite (C04, C15, C09 'source untouched')
+
+def suite_handoff(ctx, can_run_model):
+    rng = random.Random(ctx.seed * 1000003 + 61)
+    n = ctx.scale(300, 12000)
+    raw = [gen_handoff.gen_scenario(rng, "h%d-%d" % (ctx.seed, j)) for j in range(n)]
+    scs = fill_draws(raw)
+    # twins that never create a checker: the continuation must be identical (C09: the source System is untouched)
+    twins = []
+    for sc in scs:
+        k1, k2 = sc[2].index("SNAPSHOT"), sc[2].index("CONTINUE")
+        twins.append(("HANDOFF", sc[1] + "-twin", sc[2][:k1] + sc[2][k2 + 1:]))
+    impl = vlib.run_impl(scs, "ho-impl")
+    model = vlib.run_model(scs, "ho-model") if can_run_model else {}
+    timpl = vlib.run_impl(twins, "ho-twin")
+    ctx.clauses.update(["C04:sim_path_explored", "C09:source_untouched", "C15:snapshot_no_panic"])
+    for (sc, tw, (rsc, feat, seed)) in zip(scs, twins, raw):
+        sid = sc[1]
+        ctx.evaluations += 1
+        il = impl.get(sid, [])
+        for k, v in feat.items():
+            if v:
+                ctx.count("feat_" + k)
+        if can_run_model:
+            d = vlib.first_diff(il, model.get(sid, []))
+            if d is not None:
+                ctx.disagreements.append({"suite": "HANDOFF model-vs-impl", "scenario": vlib.scenario_text(sc),
+                                          "diff": {"line": d[0], "impl": d[1][:300], "model": d[2][:300]}})
+            else:
+                ctx.validated += 1
+        def fail(clause, detail, extra=None):
+            mf = {"clause": clause, "detail": detail, "scenario": vlib.scenario_text(sc), "impl": il[:30],
+                  "seed": ctx.seed, "suite": "HANDOFF", "feat": feat}
+            if extra:
+                mf.update(extra)
+            ctx.monitor_failures.append(mf)
+        if "SNAPSHOT PANIC" in il:
+            fail("C15:snapshot_no_panic", "ModelChecker::new panicked")
+            continue
+        if "SNAPSHOT" not in il:
+            continue
+        k = il.index("SNAPSHOT")
+        # C09: what the simulator does after the checker ran = what it does when no checker was ever created
+        cont = [l for l in il[k:] if l.split(" ")[0] in ("OP", "RET", "LOG", "STATE", "Q", "CNT", "NC", "PV")]
+        # drop the MC part (up to AFTERMODE)
+        if any(l.startswith("AFTERMODE") for l in il[k:]):
+            kk = k + [i for i, l in enumerate(il[k:]) if l.startswith("AFTERMODE")][-1] + 1
+            cont = [l for l in il[kk:] if l.split(" ")[0] in ("OP", "RET", "LOG", "STATE", "Q", "CNT", "NC", "PV")]
+        tl = timpl.get(tw[1], [])
+        # the twin's continuation: lines after the prefix (same number of prefix ops)
+        npre = sum(1 for l in sc[2][:sc[2].index("SNAPSHOT")] if l.startswith("OP "))
+        ops_seen = 0
+        tcont = []
+        for l in tl:
+            if l.startswith("OP "):
+                ops_seen += 1
+            if ops_seen > npre and l.split(" ")[0] in ("OP", "RET", "LOG", "STATE", "Q", "CNT", "NC", "PV"):
+                tcont.append(l)
+        strip = lambda ls: [re.sub(r"^OP \d+ ", "OP ", l) for l in ls]
+        if strip(vlib.comparable(cont)) != strip(vlib.comparable(tcont)):
+            fail("C09:source_untouched", "the simulation continues differently after a model-checking run than without one")
+        # C04: every process-visible state the simulation passes through was visited by the checker
+        res = [l for l in il if l.startswith("RESULT")]
+        if res and res[0] == "RESULT OK":
+            pvs = set(KV_PV.search(l).group(1) for l in il if l.startswith("CHECK"))
+            after = [l for l in cont if l.startswith("PV ")]
+            miss = [l for l in after if l.split()[1] not in pvs]
+            ctx.count("inclusion_checked")
+            if miss:
+                fail("C04:sim_path_explored", "%d of %d process-visible states of the continued simulation were not visited by the checker" % (len(miss), len(after)))
+            nchecks = sum(1 for l in il if l.startswith("CHECK"))
+            if nchecks >= 6 and len(after) >= 3 and (feat["timers"] or feat["drop"] or feat["dupl"] or feat["corrupt"] or feat["rand_delay"]):
+                ctx.nontrivial.add(sc_hash(sc))
+        if len(ctx.samples) < 2:
+            ctx.samples.append({"scenario": "\n".join(l for l in vlib.scenario_text(sc).split("\n") if not l.startswith(("DRAWS", "CLOCK"))),
+                                "impl_observation_head": il[:6]})
+
+
+KV_PV = re.compile(r"pv=(\d+)")
+
+# ---------------------------------------------------------------------------------------------------
+# C15 "routes agree": operations performed in the simulator before the snapshot vs in the preliminary callback
+
+def suite_routes(ctx, can_run_model):
+    from vlib import f64_bits
+    rng = random.Random(ctx.seed * 1000003 + 67)
+    n = ctx.scale(120, 5000)
+    pairs = []
+    scs = []
+    for j in range(n):
+        feat = gen_mc.gen_features(rng)
+        feat.update({"clock": False, "drop": False, "dupl": False, "corrupt": False, "stateless": False, "mf": False,
+                     "override": False})
+        sysl, nnodes, nprocs, placement = gen_mc.gen_system(rng, feat)
+        ops = []
+        crashed = set()
+        if rng.random() < 0.4:
+            ops.append(("NET", gen_mc.gen_netop(rng, nnodes)))
+        for _ in range(rng.choice([1, 2, 2, 3])):
+            p = rng.randrange(nprocs)
+            if placement[p] not in crashed:
+                ops.append(("LOCAL", p, gen_mc.gen_msg(rng)))
+            if rng.random() < 0.15:
+                nd = rng.randrange(nnodes)
+                crashed.add(nd)
+                ops.append(("CRASH", nd))
+        ops = [o for o in ops if not (o[0] == "NET" and o[1].split()[0] in ("DROPRATE", "DUPLRATE", "CORRUPTRATE", "RESET"))]
+        preds = ["PRED INV NONE", "PRED GOAL NOEVENTS", "PRED PRUNE NONE", "PRED COLLECT NONE"]
+        run = "RUN BFS FULL 0 %d" % gen_mc.FUEL
+        # route (b): everything in the callback of a checker created from the untouched system
+        cb = []
+        for o in ops:
+            if o[0] == "NET":
+                cb.append("CB NET " + o[1])
+            elif o[0] == "LOCAL":
+                cb.append("CB LOCAL %d %d %s" % (placement[o[1]], o[1], o[2]))
+            else:
+                cb.append("CB CRASH %d" % o[1])
+        sc_b = ("MC", "rb%d-%d" % (ctx.seed, j), list(sysl) + cb + preds + [run])
+        # route (a): the same operations in the simulator, then the snapshot
+        sim = ["SEED 1"]
+        for l in sysl:
+            t = l.split()
+            if t[0] == "PROC":
+                sim.append("PROG %s %s %s %s %s" % (t[1], t[3], t[4], t[5], t[6]))
+            elif t[0] == "ROW":
+                sim.append(l)
+        sim.append("DRAWS")
+        for l in sysl:
+            t = l.split()
+            if t[0] == "NODE":
+                sim.append("OP ADDNODE %s" % t[1])
+        for l in sysl:
+            t = l.split()
+            if t[0] == "PROC":
+                sim.append("OP ADDPROC %s %s" % (t[1], t[2]))
+        netl = [l for l in sysl if l.startswith("NET ")][0].split()
+        sim.append("OP NET DELAYS %s %s" % (netl[4], netl[5]))
+        for o in ops:
+            if o[0] == "NET":
+                sim.append("OP NET " + o[1])
+            elif o[0] == "LOCAL":
+                sim.append("OP LOCAL %d %s" % (o[1], o[2]))
+            else:
+                sim.append("OP CRASH %d" % o[1])
+        clock = [l for l in sysl if l.startswith("CLOCK")]
+        sc_a = ("HANDOFF", "ra%d-%d" % (ctx.seed, j), sim + ["SNAPSHOT"] + clock + preds + [run, "CONTINUE"])
+        pairs.append((sc_a, sc_b, feat))
+        scs += [sc_a, sc_b]
+    raw = [((s[0], s[1], s[2]), {}, 1) for s in scs]
+    scs2 = fill_draws(raw)
+    impl = vlib.run_impl(scs2, "rt-impl")
+    model = vlib.run_model(scs2, "rt-model") if can_run_model else {}
+    ctx.clauses.add("C15:routes_agree")
+    by = {s[1]: s for s in scs2}
+    for sc_a, sc_b, feat in pairs:
+        for sc in (by[sc_a[1]], by[sc_b[1]]):
+            ctx.evaluations += 1
+            if can_run_model:
+                d = vlib.first_diff(impl.get(sc[1], []), model.get(sc[1], []))
+                if d is not None:
+                    ctx.disagreements.append({"suite": "ROUTES model-vs-impl", "scenario": vlib.scenario_text(sc),
+                                              "diff": {"line": d[0], "impl": d[1][:300], "model": d[2][:300]}})
+                else:
+                    ctx.validated += 1
+        ra = parse_mc(impl.get(sc_a[1], []))
+        rb = parse_mc(impl.get(sc_b[1], []))
+        if ra and rb and ra[0]["result"] and rb[0]["result"] and ra[0]["result"][0] == "OK" and rb[0]["result"][0] == "OK":
+            pa = set(c["pv"] for c in ra[0]["checks"])
+            pb = set(c["pv"] for c in rb[0]["checks"])
+            if pa != pb:
+                ctx.monitor_failures.append({"clause": "C15:routes_agree",
+                                             "detail": "snapshot route visits %d process-visible states, callback route %d (%d differ)" % (
+                                                 len(pa), len(pb), len(pa ^ pb)),
+                                             "scenario": vlib.scenario_text(by[sc_a[1]]), "impl": impl.get(sc_a[1], [])[:20],
+                                             "seed": ctx.seed, "suite": "ROUTES", "feat": feat})
+            if len(pa) >= 4:
+                ctx.nontrivial.add(sc_hash(sc_a))
+        elif ra and rb and ra[0]["result"] and rb[0]["result"] and ra[0]["result"][0] != rb[0]["result"][0]:
+            if "FUEL" not in (ra[0]["result"][0], rb[0]["result"][0]):
+                ctx.monitor_failures.append({"clause": "C15:routes_agree",
+                                             "detail": "snapshot route %s, callback route %s" % (ra[0]["result"][0], rb[0]["result"][0]),
+                                             "scenario": vlib.scenario_text(by[sc_a[1]]), "impl": impl.get(sc_a[1], [])[:20],
+                                             "seed": ctx.seed, "suite": "ROUTES", "feat": feat})
 
 
 # ---------------------------------------------------------------------------------------------------
